@@ -82,6 +82,13 @@ class DomainParser:
                 }
             )
 
+        # A type may be declared before its parent (or the parent may never appear on a left-hand side):
+        # register such parents and link every type to the registered parent object.
+        for pddl_type in list(pddl_types.values()):
+            parent_type = pddl_type.parent
+            if parent_type is not None and parent_type.name != "object":
+                pddl_type.parent = pddl_types.setdefault(parent_type.name, parent_type)
+
         pddl_types["object"] = ObjectType
         self.logger.debug(
             f"Extracted {len(pddl_types)} types while parsing the types AST."
